@@ -665,6 +665,11 @@ func (db *DB) buildBucketMetaIdx() error {
 				name = strings.TrimSuffix(name, BucketMetaSuffix)
 
 				bucketMeta, err := ReadBucketMeta(db.getBucketMetaFilePath(name))
+				if err == io.EOF || err == ErrCrc {
+					// the file was being created or written when the process died; the next
+					// commit to the bucket writes it again
+					continue
+				}
 				if err != nil {
 					return err
 				}
